@@ -227,6 +227,36 @@ class Package:
             return f"{mi.name}.{name}"
         return None
 
+    def readonly_global(self, mi: ModuleInfo, name: str) -> Optional[ast.expr]:
+        """The literal a module-level name is bound to, when that binding is effectively constant: assigned exactly once at
+        module level to a constant / tuple / list / dict literal and never stored to, deleted, augmented or handed to a
+        mutating method anywhere in its module (other modules cannot rebind a name they merely import)."""
+        key = (mi.name, name)
+        cache = self.__dict__.setdefault("_ro_globals", {})
+        if key in cache:
+            return cache[key]
+        val = mi.globals.get(name)
+        res = None
+        if isinstance(val, (ast.Constant, ast.Tuple, ast.List, ast.Dict)):
+            n_assign = 0
+            bad = False
+            MUT = {"append", "extend", "insert", "pop", "remove", "clear", "sort", "reverse", "update", "setdefault", "popitem", "add", "discard", "__setitem__"}
+            for node in ast.walk(mi.tree):
+                if isinstance(node, ast.Name) and node.id == name and isinstance(node.ctx, (ast.Store, ast.Del)):
+                    n_assign += 1
+                elif isinstance(node, (ast.Subscript, ast.Attribute)) and isinstance(node.ctx, (ast.Store, ast.Del)) and \
+                        isinstance(node.value, ast.Name) and node.value.id == name:
+                    bad = True
+                elif isinstance(node, ast.Call) and isinstance(node.func, ast.Attribute) and node.func.attr in MUT and \
+                        isinstance(node.func.value, ast.Name) and node.func.value.id == name:
+                    bad = True
+                elif isinstance(node, ast.Global) and name in node.names:
+                    bad = True
+            if n_assign == 1 and not bad:
+                res = val
+        cache[key] = res
+        return res
+
     def all_functions(self) -> List[FunctionInfo]:
         return [self.functions[k] for k in sorted(self.functions)]
 
